@@ -70,7 +70,7 @@ def cases(draw, tier):
             prog.append(draw(builder_instr()))
         elif draw(st.integers(0, 7)) == 0:
             prog.append({"op": "vcompress", "o": draw(st.integers(0, 9)), "a": draw(st.integers(0, 9)),
-                         "method": draw(st.sampled_from(["1site", "2site"]))})
+                         "method": draw(st.sampled_from(["1site", "2site"])), "small_guess": draw(st.integers(0, 1))})
         else:
             prog.append(draw(chain.gauge_instr(draw(st.sampled_from(["S", "S", "S", "O", "M"])))))
     return {"model": spec, "prog": prog}
@@ -213,7 +213,10 @@ class Interp04(chain.Interp):
         mpo = o.obj.copy()
         self._prep_end(mpo)
         M = 64
-        x.compress_config = CompressConfig(CompressCriteria.fixed, max_bonddim=M, vmethod=ins["method"], vguess_m=(M, M))
+        small_guess = bool(ins.get("small_guess", 0))
+        # vguess_m: bond dimensions of the compressed copies from which the initial guess is built (default (5,5))
+        x.compress_config = CompressConfig(CompressCriteria.fixed, max_bonddim=M, vmethod=ins["method"],
+                                           vguess_m=(2, 2) if small_guess else (M, M))
         before_a = chain.dense_of(x)
         before_o = chain.dense_of(mpo)
         np.random.seed(7)
@@ -223,7 +226,12 @@ class Interp04(chain.Interp):
         self.r.classes.append("variational_compress")
         got = chain.dense_of(c)
         nrm = np.linalg.norm(ref)
-        self.r.check_close("vcompress.result", got, ref, 1e-5 * nrm + 1e-12, f"variational_compress({ins['method']}) vs dense mpo@mps")
+        if small_guess and ins["method"] == "1site":
+            # a one-site sweep cannot enlarge the bonds of a poor (bond 2x2) guess reliably: only the aliasing / sector checks apply
+            self.r.classes.append("variational_compress.small_guess_1site")
+        else:
+            self.r.check_close("vcompress.result", got, ref, 1e-5 * nrm + 1e-12,
+                               f"variational_compress({ins['method']}, small_guess={small_guess}) vs dense mpo@mps")
         self.r.check_close("vcompress.input_state", chain.dense_of(x), before_a, 1e-12 * max(np.linalg.norm(before_a), 1), "input state changed")
         self.r.check_close("vcompress.input_mpo", chain.dense_of(mpo), before_o, 1e-12 * max(np.linalg.norm(before_o), 1), "input mpo changed")
         # sector and label validity of the result (C06)
